@@ -401,7 +401,7 @@ def part_proptree(ctx, exe, work):
     vlib.tlc_must_hold(res, "PropTree invariants (last wins, Select/get agreement, postconditions)")
     ctx.add_tlc(mod, res)
     hists += res.records
-    nsim = 12 if ctx.quick else 300
+    nsim = 6 if ctx.quick else 300
     res = vlib.tlc("proptree", "MCTreeSim", cfg="MCTreeSim.cfg", timeout=3000, simulate=nsim, depth=8, workers=4,
                    seed=ctx.seed)
     vlib.tlc_must_hold(res, "PropTree simulation")
@@ -475,6 +475,57 @@ def part_xml(ctx, exe, work):
         if any("&" in n[2] for n in r["t"]):
             ctx.sample({"xml_roundtrip": r})
             break
+    part_votca_property(ctx, work, recs)
+
+
+def at_to_xml(nodes):
+    """[[d,n,v,[[k,v]..]]..] -> XML text (python writes, properly escaped)"""
+    out, stack = [], []
+    for d, n, v, at in nodes:
+        while len(stack) > d:
+            out.append("</%s>" % stack.pop())
+        out.append("<%s%s>%s" % (n, "".join(" %s=%s" % (k, quoteattr(x)) for k, x in sorted(at)), escape(v)))
+        stack.append(n)
+    while stack:
+        out.append("</%s>" % stack.pop())
+    return "".join(out) + "\n"
+
+
+def et_to_flat(text):
+    out = []
+
+    def rec(el, d):
+        out.append([d, el.tag, (el.text or "") + "".join((c.tail or "") for c in el), dict(el.attrib)])
+        for c in el:
+            rec(c, d + 1)
+    rec(ET.fromstring(text), 0)
+    return out
+
+
+def part_votca_property(ctx, work, recs):
+    """executable level: file -> votca_property (LoadFromXML, operator<<) -> stdout, read back by ElementTree"""
+    bindir = vlib.ensure_build(["votca_property"])
+    n = 40 if ctx.quick else 400
+    step = max(1, len(recs) // n)
+    for r in recs[::step]:
+        ctx.traces += 1
+        f = os.path.join(work, "vp.xml")
+        with open(f, "w") as fh:
+            fh.write(at_to_xml(r["t"]))
+        rc, out, err = vlib.run_driver(bindir + "/votca_property", args=("--file", f), timeout=60)
+        where = "attribute" if any(c in META for n_ in r["t"] for _, v in n_[3] for c in v) else \
+            ("text" if any(c in META for n_ in r["t"] for c in n_[2]) else "plain")
+        if rc != 0 or "an error occurred" in err:
+            ctx.violation("votca_property:%s:failed" % where, "votca_property rc=%s on %r: %s" % (rc, at_to_xml(r["t"]), err[-300:]), r)
+            continue
+        try:
+            back = et_to_flat(out)
+        except ET.ParseError as e:
+            ctx.violation("votca_property:%s:unreadable" % where, "output %r is not well-formed XML (%s)" % (out, e), r)
+            continue
+        d = tree_cmp(r["exp"], back, trim=True)
+        if d:
+            ctx.violation("votca_property:%s:%s" % (where, d[0]), "%s (output %r)" % (d[1], out), r)
 
 
 # ------------------------------------------------------------------------------------------
@@ -487,7 +538,7 @@ def part_literals(ctx, exe, work):
     vlib.tlc_must_hold(res, "Literals: classifiers consistent")
     ctx.add_tlc(mod, res)
     recs = res.records
-    if len(recs) != res.distinct:
+    if len(recs) < res.distinct - 50 or not recs:      # the first-character states print nothing
         raise vlib.InfraError("vector export incomplete: %d of %d" % (len(recs), res.distinct))
     items = [(i, ["lit " + json.dumps({"s": r["s"]})]) for i, r in enumerate(recs)]
     results, crashes = vlib.run_items(exe, items, args=(work,))
@@ -527,17 +578,81 @@ def part_literals(ctx, exe, work):
             break
 
 
+def replay_one(ctx, exe, work, obj):
+    """--replay FILE: re-run exactly one recorded vector / history against the current tree"""
+    r = obj["replay"]
+    kind = r.get("kind", "")
+    if "h" in r:
+        cmds = ["pt " + json.dumps({"op": "new"})]
+        for e in r["h"]:
+            c = dict(e["call"])
+            c["keys"] = sorted(e["obs"]["get"].keys())
+            c["filters"] = sorted(e["obs"]["sel"].keys())
+            cmds.append("pt " + json.dumps(c))
+        results, crashes = vlib.run_items(exe, [(0, cmds)], args=(work,))
+        v = ("Property:history-crash", crashes[0]) if 0 in crashes else judge_history(r["h"], results[0])
+    elif "s" in r and "b" in r:
+        results, crashes = vlib.run_items(exe, [(0, ["lit " + json.dumps({"s": r["s"]})])], args=(work,))
+        print(results.get(0), crashes.get(0))
+        v = None
+    elif "t" in r and "exp" in r:
+        tree = [[n[0], n[1], n[2], dict((k, x) for k, x in n[3])] for n in r["t"]]
+        results, crashes = vlib.run_items(exe, [(0, ["roundtrip " + json.dumps({"tree": tree, "level": 1})])], args=(work,))
+        out = results.get(0, [[]])[0]
+        tree = first(out, "tree")
+        print("printed:", first(out, "xml"))
+        d = ("unreadable", str(first(out, "exc"))) if tree is None else tree_cmp(r["exp"], tree, trim=True)
+        v = ("Property:xml-roundtrip:" + d[0], d[1]) if d else None
+    else:
+        if kind.startswith("tiny"):
+            ddir = os.path.join(work, "replay")
+            os.makedirs(os.path.join(ddir, "subpackages"), exist_ok=True)
+            with open(os.path.join(ddir, "t.xml"), "w") as f:
+                f.write(flat_to_xml(r["desc"]))
+            for pk in r["pkgs"]:
+                with open(os.path.join(ddir, "subpackages", pk["file"]), "w") as f:
+                    f.write(flat_to_xml(pk["t"]))
+            ddir, calc = ddir + "/", "t"
+        else:
+            ddir, calc = XTP_XML + "/", r["calc"][:-4]
+        if "copt" in r:
+            results, crashes = vlib.run_items(exe, [(0, ["calcopts " + json.dumps({"dir": ddir, "calc": calc})])], args=(work,))
+            v = ("CalculatorOptions:crash", crashes[0]) if 0 in crashes else judge_calcopts(r["copt"], results[0][0])
+        else:
+            results, crashes = vlib.run_items(exe, [(0, ["process " + json.dumps({"dir": ddir, "calc": calc, "user": r["user"]})])], args=(work,))
+            print("observed:", results.get(0))
+            v = ("ProcessUserInput:crash", crashes[0]) if 0 in crashes else judge_process(r["exp"], results[0][0])
+    ctx.count()
+    if v:
+        ctx.violation(obj.get("key", v[0]) if v[0].split(":")[0] == obj.get("key", "").split(":")[0] else v[0], v[1], r)
+
+
 def run(ctx):
     bindir = vlib.ensure_build(["drv_options"])
     exe = bindir + "/drv_options"
     work = vlib.scratch_file("c11")
     shutil.rmtree(work, ignore_errors=True)
     os.makedirs(work)
+    ctx.rule = ("mode L: every (tiny description, user tree) pair of the OptTiny family and every TLC-chosen scenario on "
+                "each shipped calculator file is one vector (non-trivial = user leaf, copied key or expected error); "
+                "XML-law trees and literals likewise (non-trivial = metacharacter/outer blank, resp. accepted literal); "
+                "mode H: every Property call history up to Depth (BFS) plus simulated ones, observed after every call")
+    ctx.assumptions += [
+        "shipped descriptions are read by python's ElementTree (independent of Property::LoadFromXML); the spec "
+        "ASSUMEs on them: links resolvable, list sections carry OPTIONAL/REQUIRED with distinct tags, unchecked nodes childless",
+        "an error 'names' an option when the exception text contains the option's tag name",
+        "literal forms the documentation does not settle are admitted either way (see MANIFEST note)",
+        "driver compiles optionshandler.cc/property.cc/tokenizer.cc with assertions, ASan and UBSan"]
     try:
-        part_tiny(ctx, exe, work)
-        part_shipped(ctx, exe, work)
-        part_proptree(ctx, exe, work)
-        part_xml(ctx, exe, work)
-        part_literals(ctx, exe, work)
+        if getattr(ctx, "replay", None):
+            replay_one(ctx, exe, work, json.load(open(ctx.replay)))
+            return
+        import time
+        for part in (part_tiny, part_shipped, part_proptree, part_xml, part_literals):
+            t0 = time.time()
+            part(ctx, exe, work)
+            vlib.log("%s: %.1fs, %d vectors + %d histories so far, %d violation key(s)"
+                     % (part.__name__, time.time() - t0, ctx.evaluations, ctx.traces, len(ctx.violations)))
+        ctx.exhaustive = False
     finally:
         shutil.rmtree(work, ignore_errors=True)
